@@ -17,7 +17,7 @@ func init() {
 	register(&Property{
 		ID:      "C13",
 		NeedSSA: true,
-		Decided: "Structural necessary conditions: (provenance) every *buffer[byte] that reaches (*Column).decodeDataPageV1/V2/decodeDictionary from file-reading code originates, on every SSA path and through every static caller, in the result of the checksum-verifying loader or in AES-GCM-authenticated plaintext; (compare) inside the loader the success return is reachable only through the CRC comparison's equal edge or the `CRC == 0` (field absent) edge, the checksum covers the whole buffer that is returned, and the mismatch edge returns an error wrapping ErrCorrupted; (always) the writer stores PageHeader.CRC from writerBuffers.crc32() after the last mutation of the page buffers and before the header is serialised, on both page kinds, and crc32()/size() cover exactly the buffers that are emitted; (errors) no error produced while loading or decoding a page is dropped or swallowed.",
+		Decided: "Structural necessary conditions: (provenance) every *buffer[byte] that reaches (*Column).decodeDataPageV1/V2/decodeDictionary from file-reading code originates, on every SSA path and through every static caller, in the result of the checksum-verifying loader or in AES-GCM-authenticated plaintext; (compare) inside the loader the success return is reachable only through the CRC comparison's equal edge or the `CRC == 0` (field absent) edge, the checksum covers the whole buffer that is returned, and the mismatch edge returns an error wrapping ErrCorrupted; (always) the writer stores PageHeader.CRC from writerBuffers.crc32() after the last mutation of the page buffers and before the header is serialised, on both page kinds, and crc32()/size() cover exactly the buffers that are emitted; (errors) no error produced while loading or decoding a page is dropped or swallowed. (crcfield) every store into PageHeader.CRC takes its value from the checksum function.",
 		NotDecided: "that decoding authentic bytes never panics, that a corrupted page header is detected (outside the page body, outside the property), CRC32 collision (2^-32), a stored checksum that is exactly zero.",
 		Assumptions: []string{
 			"crc32.ChecksumIEEE / crc32.Update compute the same IEEE CRC (stdlib)",
